@@ -440,21 +440,21 @@ MIRI = {"engine": "miri", "seeds": (0, 32)}
 LAWS = {"engine": "laws", "build": "all", "args": ([], []), "timeout": (120, 120)}
 
 PLANS = {
-    "C01": [M(["general"], 6, 60), S(["traffic", "backpressure", "refs"], 18000, 150000), S(["traffic", "backpressure", "kill"], 9000, 60000, build="none", seed_off=1000)],
-    "C02": [M(["general", "blocking"], 6, 60), S(["traffic", "backpressure", "idle"], 18000, 150000), S(["traffic", "backpressure"], 9000, 60000, build="none", seed_off=1000)],
-    "C03": [M(["tightrace"], 12, 150, fp_quick=True), M(["deathrace", "general"], 6, 60), S(["traffic", "lifecycle", "kill", "faults", "timeouts"], 12000, 100000), S(["kill", "lifecycle", "backpressure"], 9000, 60000, build="none", seed_off=1000)],
+    "C01": [M(["general"], 6, 60), S(["traffic", "backpressure", "refs"], 18000, 150000, mode="diff"), S(["traffic", "backpressure", "kill"], 9000, 60000, build="none", seed_off=1000)],
+    "C02": [M(["general", "blocking"], 6, 60), S(["traffic", "backpressure", "idle"], 18000, 150000, mode="diff"), S(["traffic", "backpressure"], 9000, 60000, build="none", seed_off=1000)],
+    "C03": [M(["tightrace"], 12, 150, fp_quick=True), M(["deathrace", "general"], 6, 60), S(["traffic", "lifecycle", "kill", "faults", "timeouts"], 12000, 100000, mode="diff"), S(["kill", "lifecycle", "backpressure"], 9000, 60000, build="none", seed_off=1000)],
     "C04": [S(["lifecycle", "kill", "faults"], 18000, 150000), S(["lifecycle", "kill"], 9000, 60000, build="none", seed_off=1000)],
     "C05": [LAWS, S(["lifecycle", "faults", "kill"], 18000, 150000), S(["lifecycle", "faults"], 9000, 60000, build="none", seed_off=1000)],
-    "C06": [M(["general", "deathrace"], 6, 60), S(["kill", "backpressure", "lifecycle"], 18000, 150000), S(["kill", "refs"], 12000, 60000, build="none", seed_off=1000)],
-    "C07": [S(["refs", "idle", "lifecycle"], 18000, 150000), S(["refs", "idle"], 9000, 60000, build="none", seed_off=1000)],
+    "C06": [M(["general", "deathrace"], 6, 60), S(["kill", "backpressure", "lifecycle"], 18000, 150000, mode="diff"), S(["kill", "refs"], 12000, 60000, build="none", seed_off=1000)],
+    "C07": [S(["refs", "idle", "lifecycle"], 18000, 150000, mode="diff"), S(["refs", "idle"], 9000, 60000, build="none", seed_off=1000)],
     "C08": [S(["idle", "kill", "traffic"], 18000, 150000), S(["idle", "kill"], 9000, 60000, build="none", seed_off=1000)],
     "C09": [P("default"), P("set", 5), P("set", 1), P("spawn-then-set", 3), P("zero"), S(["backpressure", "traffic"], 24000, 200000), S(["backpressure"], 12000, 80000, build="none", seed_off=1000)],
-    "C10": [LAWS, M(["blocking"], 6, 60), S(["timeouts", "kill"], 24000, 200000), S(["timeouts"], 12000, 80000, build="none", seed_off=1000)],
-    "C11": [MIRI, M(["spawnstorm"], 4, 40), S(["refs", "lifecycle", "traffic"], 18000, 150000), S(["refs", "kill"], 9000, 60000, build="none", seed_off=1000)],
+    "C10": [LAWS, M(["blocking"], 6, 60), S(["timeouts", "kill"], 24000, 200000, mode="diff"), S(["timeouts"], 12000, 80000, build="none", seed_off=1000)],
+    "C11": [MIRI, M(["spawnstorm"], 4, 40), M(["readers"], 4, 40, seed_off=9), S(["refs", "lifecycle", "traffic"], 18000, 150000, mode="diff"), S(["refs", "kill"], 9000, 60000, build="none", seed_off=1000)],
     "C12": [MIRI, S(["faults"], 30000, 250000), S(["deadlock"], 15000, 100000), S(["faults"], 12000, 80000, build="none", seed_off=1000)],
-    "C13": [MIRI, M(["general", "blocking", "deathrace"], 9, 90), S(["traffic", "timeouts", "kill", "faults", "lifecycle"], 12000, 100000), S(["timeouts", "kill"], 9000, 60000, build="none", seed_off=1000)],
-    "C14": [S(["deadlock"], 48000, 400000, perts=(2, 4))],
-    "C15": [MIRI, S(["deadlock"], 48000, 400000, perts=(2, 4), seed_off=500), S(["traffic", "faults"], 9000, 60000)],
+    "C13": [MIRI, M(["general", "blocking", "deathrace"], 9, 90), S(["traffic", "timeouts", "kill", "faults", "lifecycle"], 12000, 100000, mode="diff"), S(["timeouts", "kill"], 9000, 60000, build="none", seed_off=1000)],
+    "C14": [S(["deadlock"], 48000, 400000, perts=(2, 4)), S(["deadlock"], 12000, 100000, mode="erased", seed_off=300)],
+    "C15": [MIRI, S(["deadlock"], 48000, 400000, perts=(2, 4), seed_off=500), S(["deadlock"], 12000, 100000, mode="erased", seed_off=800), S(["traffic", "faults"], 9000, 60000)],
     "C16": [S(["traffic", "refs", "timeouts", "kill", "lifecycle", "backpressure", "idle", "faults"], 7500, 60000, mode="diff"), S(["refs", "traffic", "kill"], 6000, 40000, mode="diff", build="none", seed_off=1000)],
     "C20": [MIRI, M(["readers"], 6, 60), M(["slow"], 2, 20, seed_off=5), S(["metrics", "traffic", "kill", "faults"], 15000, 120000)],
     "C17": [M(["blocking"], 8, 90), M(["general"], 6, 60, seed_off=77)],
